@@ -1,0 +1,12 @@
+//go:build verif
+
+package inventory
+
+// Machine-checked contracts (comment-only; compiled to nothing). Checked by /verif/bin/stfsvc.
+
+//@ func Stat
+//@   property C13
+//@   modifies *, knownDir[name]
+//@   ghostset knownDir[name] := result1 == nil && result0.Typeflag == 53
+//@   ensures [records-directory-lookup] knownDir[name] <==> (result1 == nil && result0.Typeflag == 53)
+//@   ensures [found-header] result1 == nil ==> result0 != nil
